@@ -435,6 +435,16 @@ func runC06(c c06Case) *vlib.Outcome {
 					i0, h0 := m0.Items[id]
 					i1, h1 := m1.Items[id]
 					if h0 != h1 || (h0 && h1 && !equalStored(widen(i0.Stored), widen(i1.Stored).(M))) || m1.Unspec[id] != m0.Unspec[id] {
+						if h1 {
+							// (what the failed operation would have stored
+							// may be there, or what was there before: the
+							// deleteWith of both counts)
+							merged := *i1
+							if h0 {
+								merged.DeleteWith = append(append([]string{}, i1.DeleteWith...), i0.DeleteWith...)
+							}
+							ml.Items[id] = &merged
+						}
 						ml.markUnspecClosure(id)
 					}
 				}
